@@ -1,0 +1,74 @@
+//! Verification hooks for items private to `pairings` (compiled only with
+//! `--cfg john_yu_sm9_core_verif`); see `verif_hooks.rs` for the encodings.
+#![allow(clippy::all)]
+extern crate std;
+use std::vec::Vec;
+
+use super::*;
+use crate::verif_hooks::{bool_out, fq12, fq12_out, fq2, fq2_out, g1, g2, g2_out, opt, Out};
+
+fn u128_of(b: &[u8]) -> u128 {
+    let mut n = 0u128;
+    for x in b {
+        n = (n << 8) | (*x as u128);
+    }
+    n
+}
+fn coeff_out(c: &(Fq2, Fq2, Fq2)) -> Vec<u8> {
+    let mut v = fq2_out(&c.0);
+    v.extend(fq2_out(&c.1));
+    v.extend(fq2_out(&c.2));
+    v
+}
+
+pub fn call(name: &str, a: &[Vec<u8>]) -> Option<Out> {
+    let n = name.strip_prefix("pairings::")?;
+    Some(match n {
+        "fq12_pow" => std::vec![fq12_out(&fq12(&a[0]).pow(u128_of(&a[1])))],
+        "first_chunk" => opt(fq12(&a[0]).final_exponentiation_first_chunk(), fq12_out),
+        "last_chunk" => std::vec![fq12_out(&fq12(&a[0]).final_exponentiation_last_chunk())],
+        "final_exp_last_chunk" => std::vec![fq12_out(&fq12(&a[0]).final_exp_last_chunk())],
+        "point_pi1" => std::vec![g2_out(&g2(&a[0]).point_pi1())],
+        "point_pi2" => std::vec![g2_out(&g2(&a[0]).point_pi2())],
+        "eval_g_tangent" => {
+            let (x, y) = g2(&a[0]).eval_g_tangent(&g1(&a[1]));
+            std::vec![fq12_out(&x), fq12_out(&y)]
+        }
+        "eval_g_line" => {
+            let (x, y) = g2(&a[0]).eval_g_line(&g2(&a[1]), &g1(&a[2]));
+            std::vec![fq12_out(&x), fq12_out(&y)]
+        }
+        "miller_loop" => std::vec![fq12_out(&g2(&a[0]).miller_loop(&g1(&a[1])))],
+        "q_power_frobenius" => opt(g2(&a[0]).q_power_frobenius(&fq2(&a[1])), g2_out),
+        "g_line" => {
+            let mut p = g2(&a[0]);
+            let c = p.g_line(&g2(&a[1]));
+            std::vec![g2_out(&p), coeff_out(&c)]
+        }
+        "g_tangent" => {
+            let mut p = g2(&a[0]);
+            let c = p.g_tangent();
+            std::vec![g2_out(&p), coeff_out(&c)]
+        }
+        "prepared_coeffs" => {
+            let p = G2Prepared::from(g2(&a[0]));
+            p.coeffs.iter().map(coeff_out).collect()
+        }
+        "prepared_miller_loop" => {
+            let p = G2Prepared::from(g2(&a[0]));
+            std::vec![fq12_out(&p.miller_loop(&g1(&a[1])))]
+        }
+        "pairing" => std::vec![fq12_out(&pairing(&g1(&a[0]), &g2(&a[1])))],
+        "fast_pairing" => std::vec![fq12_out(&fast_pairing(&g1(&a[0]), &g2(&a[1])))],
+        "bit" => std::vec![bool_out(bit(u128_of(&a[0]), a[1][0] as u32))],
+        "constants" => std::vec![
+            SM9_LOOP_COUNT.to_vec(),
+            SM9_S.to_be_bytes().to_vec(),
+            SM9_LOOP_N.to_be_bytes().to_vec(),
+            SM9_A2.to_be_bytes().to_vec(),
+            SM9_A3.to_be_bytes().to_vec(),
+            SM9_NINE.to_be_bytes().to_vec(),
+        ],
+        _ => return None,
+    })
+}
